@@ -660,10 +660,17 @@ Definition rows_of (s : st) : list orow := rev (out s).
    Globals.__getstate__ / __setstate__, ObjectRow.__getstate__, IdManager.__setstate__,
    Interpreter(continuing=True).                                                          *)
 
+(* The continuation as a state transformer.  Handles are model artefacts (Python object
+   identity), so the model keeps the whole heap across save/load: the rows that the real
+   file does not contain are unreachable after loading (no name, no variable and — because
+   row-valued fields are dropped — no field of a persistent row points at them); they play
+   the role of garbage-collected objects.  The file format itself is the subject of C05
+   (theories/Continuation.v). *)
 Record cont := mkCont {
   k_ids : list (string * Z);
-  k_p_nicks : list (string * cell);
-  k_p_tables : list (string * cell);
+  k_p_nicks : list (string * nat);
+  k_p_tables : list (string * nat);
+  k_heap : list cell;
   k_deps : list (string * string * string)
 }.
 
@@ -681,31 +688,26 @@ Fixpoint saved_fields (fs : list (string * value)) : result (list (string * valu
     end
   end.
 
-Fixpoint save_rows (h : list cell) (m : list (string * nat)) : result (list (string * cell)) :=
-  match m with
-  | [] => Ok []
-  | (n, hd) :: r =>
-    match nth_error h hd with
+(* serialise-and-reload the rows reachable by a persistent name, in place *)
+Fixpoint clean_handles (h : list cell) (hs : list nat) : result (list cell) :=
+  match hs with
+  | [] => Ok h
+  | x :: r =>
+    match nth_error h x with
     | None => Err (Internal "dangling-handle")
     | Some c =>
       do fs <- saved_fields (c_fields c);
-      do rest <- save_rows h r;
-      Ok ((n, mkCell (c_table c) (c_id c) 0 fs) :: rest)
+      clean_handles (set_nth x (mkCell (c_table c) (c_id c) (c_index c) fs) h) r
     end
   end.
 
 Definition save (s : st) : result cont :=
-  do pn <- save_rows (heap s) (p_nicks s);
-  do pt <- save_rows (heap s) (p_tables s);
-  Ok (mkCont (ids s) pn pt (deps s)).
+  do h1 <- clean_handles (heap s) (map snd (p_nicks s) ++ map snd (p_tables s));
+  Ok (mkCont (ids s) (p_nicks s) (p_tables s) h1 (deps s)).
 
-(* the loaded rows become fresh heap cells: nickname rows first, then table rows *)
 Definition load (e : env) (c : cont) : st :=
-  let hn := map snd (k_p_nicks c) in
-  let ht := map snd (k_p_tables c) in
-  let idx_n := combine (map fst (k_p_nicks c)) (seq 0 (length hn)) in
-  let idx_t := combine (map fst (k_p_tables c)) (seq (length hn) (length ht)) in
-  mkSt (k_ids c) (fresh_slots e) [] [] idx_n idx_t (hn ++ ht) [mkFrame [] None] (k_deps c) [].
+  mkSt (k_ids c) (fresh_slots e) [] [] (k_p_nicks c) (k_p_tables c) (k_heap c)
+       [mkFrame [] None] (k_deps c) [].
 
 (* one run of k iterations, fresh or continued; returns the final state *)
 Definition run_one (r : recipe) (k : nat) (c : option cont) : result st :=
